@@ -9,9 +9,12 @@
 namespace FreeListC
 
 structure Slot where
-  next : Nat
-  flag : Nat        -- bit 0: hasNext, bit 1: inUsed
+  next    : Nat
+  hasNext : Bool     -- flag byte bit 0
+  inUsed  : Bool     -- flag byte bit 1 (no other bit of the flag byte is ever set by the code)
   deriving DecidableEq, Repr, Inhabited
+
+def Slot.flag (x : Slot) : Nat := (if x.hasNext then 1 else 0) + (if x.inUsed then 2 else 0)
 
 inductive Op where
   | pop
@@ -56,7 +59,8 @@ structure State where
 
 /-- the state createFreeBufferList builds: chain 0 → 1 → … → n-1, last flag cleared -/
 def initSlots (n : Nat) : List Slot :=
-  (List.range n).map (fun i => if i + 1 < n then { next := i + 1, flag := 1 } else { next := 0, flag := 0 })
+  (List.range n).map (fun i => if i + 1 < n then { next := i + 1, hasNext := true, inUsed := false }
+                              else { next := 0, hasNext := false, inUsed := false })
 
 def init (n : Nat) (progs : List (List Op)) : State :=
   { head := 0, tail := n - 1, size := n, counter := 0, slots := initSlots n,
@@ -65,7 +69,9 @@ def init (n : Nat) (progs : List (List Op)) : State :=
 def retryBound : Nat := 200
 
 def getSlot (s : State) (i : Nat) : Slot := s.slots.getD i default
-def setFlag (s : State) (i : Nat) (f : Nat → Nat) : List Slot := s.slots.modify i (fun x => { x with flag := f x.flag })
+def clearFlag (s : State) (i : Nat) : List Slot := s.slots.modify i (fun x => { x with hasNext := false, inUsed := false })
+def setInUsed (s : State) (i : Nat) : List Slot := s.slots.modify i (fun x => { x with inUsed := true })
+def setHasNext (s : State) (i : Nat) : List Slot := s.slots.modify i (fun x => { x with hasNext := true })
 def setNext (s : State) (i : Nat) (v : Nat) : List Slot := s.slots.modify i (fun x => { x with next := v })
 
 /-- begin the next operation of the program (no shared access: part of the previous step's local computation) -/
@@ -92,15 +98,15 @@ def stepTh (s : State) (th : Th) : State × Th × String :=
     else (s', { th with pc := .pHasNext, retry := 0 }, "dec_size")
   | .pIncFail => ({ s with size := s.size + 1 }, finishOp th .nomore, "inc_size")
   | .pHasNext =>
-    if (getSlot s th.oldHead).flag % 2 = 1 then (s, { th with pc := .pNext }, "hasNext")
+    if (getSlot s th.oldHead).hasNext then (s, { th with pc := .pNext }, "hasNext")
     else (s, { th with pc := .pPlainSize }, "hasNext")
   | .pNext => (s, { th with nxt := (getSlot s th.oldHead).next, pc := .pCas }, "next")
   | .pCas =>
     if s.head = th.oldHead then
       ({ s with head := th.nxt, hver := s.hver + 1, aba := s.aba || (th.lver != s.hver) }, { th with pc := .pClear }, "cas_head")
     else (s, { th with pc := .pReload }, "cas_head")
-  | .pClear => ({ s with slots := setFlag s th.oldHead (fun _ => 0) }, { th with pc := .pSetUsed }, "clearFlag")
-  | .pSetUsed => ({ s with slots := setFlag s th.oldHead (fun f => f ||| 2) }, { th with pc := .pCnt }, "setInUsed")
+  | .pClear => ({ s with slots := clearFlag s th.oldHead }, { th with pc := .pSetUsed }, "clearFlag")
+  | .pSetUsed => ({ s with slots := setInUsed s th.oldHead }, { th with pc := .pCnt }, "setInUsed")
   | .pCnt =>
     ({ s with counter := s.counter + 1 }, finishOp { th with held := th.held ++ [th.oldHead] } (.got th.oldHead), "inc_counter")
   | .pPlainSize =>
@@ -110,13 +116,13 @@ def stepTh (s : State) (th : Th) : State × Th × String :=
     let th' := { th with oldHead := s.head, lver := s.hver, retry := th.retry + 1 }
     if th.retry + 1 < retryBound then (s, { th' with pc := .pHasNext }, "ld_head")
     else (s, { th' with pc := .pIncFail }, "ld_head")
-  | .uReset => ({ s with slots := setFlag s th.o (fun _ => 0) }, { th with pc := .uLdTail }, "clearFlag")
+  | .uReset => ({ s with slots := clearFlag s th.o }, { th with pc := .uLdTail }, "clearFlag")
   | .uLdTail => (s, { th with ot := s.tail, pc := .uCas }, "ld_tail")
   | .uCas =>
     if s.tail = th.ot then ({ s with tail := th.o }, { th with pc := .uLink0 }, "cas_tail")
     else (s, { th with pc := .uLdTail }, "cas_tail")
   | .uLink0 => ({ s with slots := setNext s th.ot th.o }, { th with pc := .uLink1 }, "link_next")
-  | .uLink1 => ({ s with slots := setFlag s th.ot (fun f => f ||| 1) }, { th with pc := .uIncSize }, "link_flag")
+  | .uLink1 => ({ s with slots := setHasNext s th.ot }, { th with pc := .uIncSize }, "link_flag")
   | .uIncSize => ({ s with size := s.size + 1 }, { th with pc := .uDecCnt }, "inc_size")
   | .uDecCnt => ({ s with counter := s.counter - 1 }, finishOp th (.pushed th.o), "dec_counter")
 
@@ -140,12 +146,29 @@ def runToIdle : Nat → State → Nat → State
     | none => s
     | some th => if th.pc = .idle then s else runToIdle f (step s t).1 t
 
+/-- run the current operation of thread `t` to completion without interference (sequential-atomic execution):
+    step `t` until its result list grows -/
+def opRun : Nat → State → Nat → State
+  | 0, s, _ => s
+  | f + 1, s, t =>
+    match s.ths[t]? with
+    | none => s
+    | some th =>
+      if th.pc = .idle then s else
+      let s' := (step s t).1
+      match s'.ths[t]? with
+      | none => s'
+      | some th' => if th.res.length < th'.res.length then s' else opRun f s' t
+
+/-- a sequential-atomic history: the listed threads perform their next operation one after the other -/
+def seqRun (s : State) (ts : List Nat) : State := ts.foldl (fun s t => opRun 16 s t) s
+
 def allHeld (s : State) : List Nat := s.ths.flatMap (·.held)
 
 /-- walk the free chain from `head` following hasNext/next (computeFreeSliceNum's walk), bounded by fuel -/
 def walk : Nat → State → Nat → List Nat
   | 0, _, _ => []
   | f + 1, s, i =>
-    if (getSlot s i).flag % 2 = 1 then i :: walk f s (getSlot s i).next else [i]
+    if (getSlot s i).hasNext then i :: walk f s (getSlot s i).next else [i]
 
 end FreeListC
